@@ -45,6 +45,11 @@ CLAIMED["C17"] = dict(engine="agentsim", level="exploration", ref="6 (C17), 5 (E
    text="The real Agent.Start loop is fed add/modify/re-create/delete events on the node-specific, default and group custom resources and label changes of the node, interleaved in a seeded order (including duplicates, same-generation re-deliveries produced by the agent's own status patches, synthetic ADDED after watch re-opening, deletions while the other kind is absent, and specs failing validation). After every released event the sequence of objects handed to the notify callback must be what the reference model of the documented precedence prescribes: node-specific over group/default, no delivery on a group update while a node-specific resource exists, fall-back on deletion, no delivery for a version already seen, never an object failing validation; after faults stop the agent watches exactly its node resource and the group its label names.",
    note="Built with go1.26.8 (testing/synctest) as a test binary. The API server is a stub at the HTTP level; the order in which the agent's select sees its three streams is the seeded release order (only one stream ever has an event in flight), not goroutine scheduling. Weaker readings taken: see evidence assumptions.")
 
+CLAIMED["C15"] = dict(engine="nrisim", level="exploration", ref="6 (C15), 5 (E1)",
+   technique="deterministic simulation with a seeded cooperative scheduler: the real handlers run as tasks of which exactly one runs at a time; verifgen turns every Lock/Unlock, go statement and channel receive of pkg/resmgr and pkg/resmgr/cache, and every method entry of the cache and policy types, into scheduling points / access probes; lock-discipline monitor, deadlock detection, serializability against k! sequential twin executions",
+   text="After a sequential prefix, 2-3 independent requests (lifecycle requests, a configuration update, a Synchronize) are delivered concurrently under seeded schedules, including starvation-biased ones. Every cache/policy method entry inside a handler must happen under the resource manager's lock; no schedule may deadlock; the resulting plugin state and request outcomes must equal those of some sequential order of the same requests (each order executed in a fresh twin world); the C01-C05 invariants must hold on the resulting state; and a reader calling GetPodResources after InsertPod returned must observe what the asynchronous fetch delivers, for every scheduling of the fetch goroutine and the kubelet's answer.",
+   note=E1NOTE+" The scheduler controls interleaving at synchronisation points and unprotected method entries, not at individual memory accesses; the Go race detector named in the property's observe_at is outside this technique. Four genuine defects found by this check were repaired in /repo (see known-findings.json, fixed entries).")
+
 NOT_BUILT = {
 }
 
